@@ -202,7 +202,7 @@ pub fn run(ctx: &mut Ctx) {
     for (bi, b) in bs.iter().enumerate() {
         let np = probes(b.kind).len();
         for pi in 0..np {
-            ctx.random(&G_BOUND, &[idx(bi, bs.len()), idx(pi, np)], ctx.t(25, 1_500), 700);
+            ctx.random(&G_BOUND, &[idx(bi, bs.len()), idx(pi, np)], ctx.t(150, 1_500), 700);
         }
         if ctx.too_many() {
             return;
